@@ -90,15 +90,15 @@ pub fn run(ctx: Ctx) -> ! {
         }
     });
     if unreadable.load(Ordering::Relaxed) > 0 {
-        mc_core::report::machinery_failure("accepted artefacts could not be read back by the refcbor view");
+        crate::fail("accepted artefacts could not be read back by the refcbor view");
     }
     for era in POST_BYRON {
         if sum.accepted(era) == 0 {
-            mc_core::report::machinery_failure(&format!("C35 vacuous: no accepted case in era {}", era.name()));
+            crate::fail(&format!("C35 vacuous: no accepted case in era {}", era.name()));
         }
     }
     if extra.load(Ordering::Relaxed) == 0 || reqs.load(Ordering::Relaxed) == 0 || colls.load(Ordering::Relaxed) == 0 {
-        mc_core::report::machinery_failure("C35 vacuous: no accepted case with extra witnesses / required signers / collateral");
+        crate::fail("C35 vacuous: no accepted case with extra witnesses / required signers / collateral");
     }
     found.flush(&ctx);
     let mut cov = sum.coverage(
